@@ -206,6 +206,9 @@ def blotter_lists_separate(bl, o):
 
 @contract("flumine/markets/blotter.py::Blotter.__setitem__", tags=["C11"])
 def _(self, customer_order_ref: ATOM, order: Ref("BaseOrder")):
+    # C15: an order id is filed once - filing a second object under an id that is taken overwrites _orders[id] while the views
+    # keep both objects (the same precondition the C15 sidecar of variant C puts on this method; every caller has to establish it)
+    requires("new_id", not (customer_order_ref in self._orders))
     modifies(self, "active")
     modifies_map(self._orders)
     modifies_map(self._bet_id_lookup)
@@ -276,8 +279,11 @@ def known_order_type(c):
     return c.order_type == "LIMIT" or c.order_type == "LIMIT_ON_CLOSE" or c.order_type == "MARKET_ON_CLOSE"
 
 
-@contract("flumine/order/process.py::create_order_from_current", tags=["C11"])
+@contract("flumine/order/process.py::create_order_from_current", tags=["C11", "C15"])
 def _(markets: Ref("Markets"), strategies: Ref("Strategies"), current_order: Ref("CurrentOrder"), add_market: Ref("AddMarketFn"), client: Ref("BaseClient")) -> Opt(Ref("BaseOrder")):
+    # C15: adoption files a NEW order id (the id is the tail of the customer reference): the caller only adopts what it could not find
+    requires("reference_not_yet_filed", implies(current_order.market_id in markets._markets,
+                                                not (ref_order_id(current_order) in markets._markets[current_order.market_id].blotter._orders)))
     requires("add_market_registers_into_this_registry", add_market.g_markets == markets)
     requires("registry_keys_are_market_ids", implies(current_order.market_id in markets._markets,
                                                      markets._markets[current_order.market_id].market_id == current_order.market_id))  # Markets.add_market is only called with (market.market_id, market)
@@ -441,7 +447,7 @@ def exchange_order_types(event):
     return forall(lambda a: forall(lambda b: known_order_type(event.event[a].orders[b]), 0, len(event.event[a].orders)), 0, len(event.event))
 
 
-@contract("flumine/order/process.py::process_current_orders", tags=["C11"])
+@contract("flumine/order/process.py::process_current_orders", tags=["C11", "C15"])
 def _(markets: Ref("Markets"), strategies: Ref("Strategies"), event: Ref("CurrentOrdersEvent"), log_control: Ref("LogControlFn"), add_market: Ref("AddMarketFn")):
     requires("live_trading", not config.simulated and live_clients(event))
     requires("exchange_order_types", exchange_order_types(event))  # A7
